@@ -353,3 +353,9 @@ func destAliases(par *ssa.Parameter) []ssa.Value {
 	}
 	return out
 }
+
+func init() {
+	register(&Property{ID: "X-retry", NeedSSA: true, Decided: "dump", NotDecided: "-", Run: func(c *Ctx) {
+		runRetryRule(c, "X.retry", func(fn *ssa.Function) bool { return inModule(fn) }, 1)
+	}})
+}
